@@ -6,7 +6,7 @@ use crate::mon::Report;
 use crate::mon_c10::health;
 use crate::rng::Rng;
 use crate::scen::{Act, Scen, ONE};
-use crate::world::ix;
+use crate::world::{ix, World};
 use fixed::types::I80F48;
 use num_bigint::BigInt;
 
@@ -236,6 +236,21 @@ pub fn run_with(rng: &mut Rng, n: usize, rep: &mut Report, lines: &mut Option<Ve
                 7 => dep_tokens.saturating_sub(1),
                 _ => rng.below(dep_tokens.max(1)) + 1,
             };
+            // half of the liquidations find banks that were NOT accrued since an earlier time: the handler has to bring both up
+            // to date itself. Everything "before" is measured on an accrued copy; the instruction runs on the raw world, and the
+            // family line carries the raw banks (their accrual is part of the model of the instruction).
+            let mut raw: Option<World> = None;
+            if rng.chance(1, 2) {
+                s.w.advance(*rng.pick(&[1i64, 60, 3600, 86400, 2_592_000]));
+                raw = Some(s.w.clone());
+                let _ = s.w.exec(&ix::accrue(&s.banks[0]));
+                let _ = s.w.exec(&ix::accrue(&s.banks[1]));
+                rep.bump("accrual_left_to_the_handler");
+            } else {
+                // (a refused lazy attempt leaves the raw world behind: bring it up to date for real)
+                let _ = s.w.exec(&ix::accrue(&s.banks[0]));
+                let _ = s.w.exec(&ix::accrue(&s.banks[1]));
+            }
             let pre_v = health(&s.w, &victim);
             let (v_dep0, _, _, _) = pos_amounts(&s, &victim, &ab.bank);
             let (v_a_in_liab0, v_liab0, _, v_liab_sh0) = pos_amounts(&s, &victim, &lb.bank);
@@ -250,6 +265,10 @@ pub fn run_with(rng: &mut Rng, n: usize, rep: &mut Report, lines: &mut Option<Ve
                 s.w.oracle_metas_for(&ab.bank), s.w.oracle_metas_for(&lb.bank),
                 s.w.remaining_for(&liquidator, &[ab.bank, lb.bank]), s.w.remaining_for(&victim, &[]),
             );
+            // from here on the world is the raw one again
+            let (bka_acc, bkl_acc) = (bka0, bkl0);
+            if let Some(rw) = raw.take() { s.w = rw; }
+            let (bka0, bkl0) = (s.w.bank(&ab.bank), s.w.bank(&lb.bank));
             let before = s.w.accounts.clone();
             // pre-state for the liqix family line
             let head = if lines.is_some() {
@@ -297,6 +316,15 @@ pub fn run_with(rng: &mut Rng, n: usize, rep: &mut Report, lines: &mut Option<Ve
                 }
                 Ok(()) => {
                     rep.bump("liquidated");
+                    for (name, h, acc) in [("collateral", &ab, &bka_acc), ("debt", &lb, &bkl_acc)] {
+                        let b1 = s.w.bank(&h.bank);
+                        if b1.last_update != s.w.clock_ts {
+                            rep.fail(format!("C06 a liquidation left its {} bank's interest at time {} (now {}): the bank was transacted against stale share values", name, b1.last_update, s.w.clock_ts));
+                        } else if bits(b1.liability_share_value) != bits(acc.liability_share_value) || bits(b1.asset_share_value) != bits(acc.asset_share_value) {
+                            rep.fail(format!("C06 after a liquidation the {} bank's share values ({}, {}) are not those of an accrual to the current time ({}, {})", name,
+                                bits(b1.asset_share_value), bits(b1.liability_share_value), bits(acc.asset_share_value), bits(acc.liability_share_value)));
+                        }
+                    }
                     let tag = format!("seize {} of {} (collateral price {}, debt price {}, decimals {}/{})", seize, dep_tokens, pa, pl, d0, d1);
                     let post_v = health(&s.w, &victim);
                     if let (Some(pre), Some(post)) = (&pre_v, &post_v) {
@@ -379,7 +407,7 @@ pub fn run_with(rng: &mut Rng, n: usize, rep: &mut Report, lines: &mut Option<Ve
                     }
                     // C01: in each bank the solvency margin falls by less than asv + lsv + 1 (theorems decrease_step,
                     // increase_step, liquidation_fee_step); both banks were accrued just before
-                    for (name, h, s0, b0) in [("collateral", &ab, &sl_a0, &bka0), ("debt", &lb, &sl_l0, &bkl0)] {
+                    for (name, h, s0, b0) in [("collateral", &ab, &sl_a0, &bka_acc), ("debt", &lb, &sl_l0, &bkl_acc)] {
                         let s1 = crate::scen::slack_of(&s.w, h);
                         let allow = big(bits(b0.asset_share_value)) + big(bits(b0.liability_share_value)) + big(1);
                         if &s1 + &allow <= *s0 {
